@@ -135,6 +135,43 @@ Proof.
   change (len_N [NL]) with 1. rewrite N.sub_diag. replace (off + 1 - off) with 1 by lia. reflexivity.
 Qed.
 
+(* ---- ... or by b blank lines first ---- *)
+Fixpoint blank_nodes (off : N) (b : nat) : list tree :=
+  match b with O => [] | S b' => leaf off 1 :: blank_nodes (off + 1) b' end.
+
+Lemma blanks_loop f off0 c more : c <> NL -> forall b k off acc, (b < k)%nat ->
+  rep_loop (run akn_peg (3 + f) (Ref (of_string "empty_line"))) off0 0%nat k (repeat NL b ++ c :: more) off acc
+  = Ok (c :: more) (off + N.of_nat b) (Node off0 (off + N.of_nat b - off0) [] [] (rev acc ++ blank_nodes off b)).
+Proof.
+  intros Hc. induction b as [|b IH]; intros k off acc Hk; (destruct k as [|k]; [lia|]).
+  - cbn [rep_loop repeat app]. change (3 + f)%nat with (S (S (S f))). rewrite run_Ref, rule_empty_line, run_Ref, rule_newline, run_Lit.
+    cbn [strip_prefix]. destruct (N.eqb_spec NL c) as [E|_]; [congruence|]. cbn [Nat.leb blank_nodes].
+    rewrite rev_append_rev, !app_nil_r. change (N.of_nat 0) with 0. rewrite N.add_0_r. reflexivity.
+  - cbn [rep_loop repeat app]. change (3 + f)%nat with (S (S (S f))). rewrite run_Ref, rule_empty_line, run_Ref, rule_newline, run_Lit.
+    cbn [strip_prefix]. rewrite N.eqb_refl. change (S (S (S f))) with (3 + f)%nat. change (len_N [NL]) with 1.
+    rewrite IH by lia. cbn [rev blank_nodes]. rewrite <- app_assoc. cbn [app].
+    replace (off + 1 + N.of_nat b) with (off + N.of_nat (S b)) by lia. reflexivity.
+Qed.
+
+Lemma len_N_repeat c b : len_N (repeat c b) = N.of_nat b.
+Proof. unfold len_N. rewrite repeat_length. reflexivity. Qed.
+
+Definition eol_node_b (off : N) (b : nat) : tree :=
+  Node off (1 + N.of_nat b) [] [(of_string "newline", 0%nat)] [leaf off 1; Node (off + 1) (N.of_nat b) [] [] (blank_nodes (off + 1) b)].
+
+Lemma eol_blanks f b c more off : c <> NL ->
+  run akn_peg (6 + f) (Ref (of_string "eol")) (NL :: repeat NL b ++ c :: more) off = Ok (c :: more) (off + 1 + N.of_nat b) (eol_node_b off b).
+Proof.
+  intros Hc. change (6 + f)%nat with (S (S (S (S (2 + f))))). rewrite run_Ref, rule_eol', run_Seq. cbn [seq_loop].
+  rewrite run_Ref, rule_newline. change (S (2 + f)) with (S (S (S f))). rewrite run_Lit.
+  change (strip_prefix [NL] (NL :: repeat NL b ++ c :: more)) with (Some (repeat NL b ++ c :: more)). cbv iota.
+  rewrite run_Star. change (S (S (S f))) with (3 + f)%nat. change (len_N [NL]) with 1.
+  rewrite (blanks_loop f (off + 1) c more Hc b) by (rewrite app_length, repeat_length; lia).
+  cbn [rev app rev_append]. unfold eol_node_b.
+  replace (off + 1 + N.of_nat b - off) with (1 + N.of_nat b) by lia.
+  replace (off + 1 + N.of_nat b - (off + 1)) with (N.of_nat b) by lia. reflexivity.
+Qed.
+
 (* ---- a plain num: no blank, no backslash ---- *)
 Definition numc_ok (c : N) : Prop := okc c /\ c <> 32 /\ c <> 92.
 
@@ -356,31 +393,31 @@ Definition line_tree (off : N) (ls : list seg) : tree :=
   line_node off 0 (Node off (len_N (raw ls)) [] [] (seg_nodes off ls)) (eol_node (off + len_N (raw ls))) (len_N (raw ls) + 1).
 
 Section Tree.
-  Variables (off : N) (kw n : str) (hs ls : list seg) (o6 : N) (td : tree).
+  Variables (off : N) (kw n : str) (hs : list seg) (b : nat) (ls : list seg) (o6 : N) (td : tree).
   Definition o1 := off + len_N kw.
   Definition o2 := o1 + 1 + len_N n + 3 + len_N (raw hs).
-  Definition o3 := o2 + 1.
+  Definition o3 := o2 + 1 + N.of_nat b.
   Definition o4 := o3 + 2.
   Definition o5 := o4 + len_N (raw ls) + 1.
   Definition content_node : tree := Node o4 (o5 - o4) [] [] [line_tree o4 ls].
   Definition body_node : tree := Node o3 (o6 - o3) [] body_labels [indent_node o3; leaf o4 0; content_node; td].
   Definition hier_tree : tree :=
-    add_type (Node off (o6 - off) [] heb_labels [leaf off (len_N kw); no_attrs_node o1; heh_node o1 n hs; eol_node o2; body_node])
+    add_type (Node off (o6 - off) [] heb_labels [leaf off (len_N kw); no_attrs_node o1; heh_node o1 n hs; eol_node_b o2 b; body_node])
              (of_string "HierElement").
 End Tree.
 
 Definition SUBH : str := of_string "SUBHEADING".
 
-Theorem hier_element_parses_gen f kw n hs ls rest off rest' o6 td :
+Theorem hier_element_parses_gen f kw n hs b ls rest off rest' o6 td :
   In kw hier_keywords -> num_ok n ->
   wf_segs hs -> hs <> [] -> next_of hs <> 32 ->
   wf_segs ls -> ls <> [] -> next_of ls <> 15 -> next_of ls <> NL ->
   let L := raw ls ++ NL :: 15 :: NL :: rest in
   none_starts block_lits L = true -> p_safe L = true -> starts_with SUBH L = false ->
-  run akn_peg (8 + (25 + f)) (Ref (of_string "dedent")) (15 :: NL :: rest) (o5 off kw n hs ls) = Ok rest' o6 td ->
+  run akn_peg (8 + (25 + f)) (Ref (of_string "dedent")) (15 :: NL :: rest) (o5 off kw n hs b ls) = Ok rest' o6 td ->
   run akn_peg (40 + f) (Ref (of_string "hier_element"))
-      (kw ++ 32 :: n ++ 32 :: 45 :: 32 :: raw hs ++ NL :: 14 :: NL :: L) off
-  = Ok rest' o6 (hier_tree off kw n hs ls o6 td).
+      (kw ++ 32 :: n ++ 32 :: 45 :: 32 :: raw hs ++ NL :: repeat NL b ++ 14 :: NL :: L) off
+  = Ok rest' o6 (hier_tree off kw n hs b ls o6 td).
 Proof.
   intros Hkw Hn Hhw Hhne Hhx Hlw Hlne Hl15 Hlnl L HbL HpL HsL Ed.
   destruct (next_exposed ls (15 :: NL :: rest)) as (tl & Hx). fold L in Hx.
@@ -390,17 +427,17 @@ Proof.
   change (35 + f)%nat with (3 + (32 + f))%nat. rewrite (keyword_selected _ kw _ off Hkw).
   change (3 + (32 + f))%nat with (9 + (26 + f))%nat. rewrite block_attrs_blank.
   change (9 + (26 + f))%nat with (35 + f)%nat. rewrite (heh_parses f n hs _ _ Hn Hhw Hhne Hhx).
-  change (35 + f)%nat with (6 + (29 + f))%nat. rewrite eol_one by (unfold NL; discriminate).
+  change (35 + f)%nat with (6 + (29 + f))%nat. rewrite eol_blanks by (unfold NL; discriminate).
   change (6 + (29 + f))%nat with (S (S (33 + f))). rewrite run_Opt, run_Seq. cbn [seq_loop].
   change (33 + f)%nat with (8 + (25 + f))%nat. rewrite Hx. rewrite indent_parses by exact Hlnl. rewrite <- Hx.
   change (8 + (25 + f))%nat with (S (32 + f)). rewrite run_Opt.
   rewrite (first_lits_sound akn_peg 4 _ _ subheading_first (32 + f) L _) by (try lia; cbn [none_starts forallb]; fold SUBH; rewrite HsL; reflexivity).
   change (S (32 + f)) with (S (S (31 + f))). rewrite run_Star.
   assert (Hstar : forall o k acc, (2 <= k)%nat ->
-            rep_loop (run akn_peg (S (31 + f)) (Ref (of_string "hier_block_element"))) o 0%nat k L (off + len_N kw + 1 + len_N n + 3 + len_N (raw hs) + 1 + 2) acc
-            = Ok (15 :: NL :: rest) (off + len_N kw + 1 + len_N n + 3 + len_N (raw hs) + 1 + 2 + len_N (raw ls) + 1)
-                 (Node o (off + len_N kw + 1 + len_N n + 3 + len_N (raw hs) + 1 + 2 + len_N (raw ls) + 1 - o) [] []
-                       (rev_append (line_tree (off + len_N kw + 1 + len_N n + 3 + len_N (raw hs) + 1 + 2) ls :: acc) []))).
+            rep_loop (run akn_peg (S (31 + f)) (Ref (of_string "hier_block_element"))) o 0%nat k L (off + len_N kw + 1 + len_N n + 3 + len_N (raw hs) + 1 + N.of_nat b + 2) acc
+            = Ok (15 :: NL :: rest) (off + len_N kw + 1 + len_N n + 3 + len_N (raw hs) + 1 + N.of_nat b + 2 + len_N (raw ls) + 1)
+                 (Node o (off + len_N kw + 1 + len_N n + 3 + len_N (raw hs) + 1 + N.of_nat b + 2 + len_N (raw ls) + 1 - o) [] []
+                       (rev_append (line_tree (off + len_N kw + 1 + len_N n + 3 + len_N (raw hs) + 1 + N.of_nat b + 2) ls :: acc) []))).
   { intros o k acc Hk. destruct k as [|[|k]]; try lia. cbn [rep_loop].
     change (S (31 + f)) with (18 + (14 + f))%nat. rewrite (falls_through_to_line (14 + f) L _ HbL HpL).
     change (12 + (14 + f))%nat with (20 + (6 + f))%nat. unfold L at 1. rewrite (segs_line_exact (6 + f) ls 15 (NL :: rest) _ Hlw Hlne Hl15) by (unfold NL; discriminate).
@@ -440,12 +477,12 @@ Definition p_node (ds : list dnode) : dnode :=
 Lemma to_dict_S inp f t : to_dict inp (S f) t = dispatch inp (to_dict inp f) f t.
 Proof. reflexivity. Qed.
 
-Theorem td_hier f pre kw n hs ls rest o6 td :
+Theorem td_hier f pre kw n hs b ls rest o6 td :
   num_ok n -> wf_segs hs -> flat_map seg_dec hs <> [] -> wf_segs ls ->
-  o5 (len_N pre) kw n hs ls < o6 ->
-  let inp := pre ++ kw ++ 32 :: n ++ 32 :: 45 :: 32 :: raw hs ++ NL :: 14 :: NL :: raw ls ++ NL :: 15 :: NL :: rest in
+  o5 (len_N pre) kw n hs b ls < o6 ->
+  let inp := pre ++ kw ++ 32 :: n ++ 32 :: 45 :: 32 :: raw hs ++ NL :: repeat NL b ++ 14 :: NL :: raw ls ++ NL :: 15 :: NL :: rest in
   exists hds lds,
-    to_dict inp (3 + f) (hier_tree (len_N pre) kw n hs ls o6 td)
+    to_dict inp (3 + f) (hier_tree (len_N pre) kw n hs b ls o6 td)
     = OkR (DNode (Types.S_ "hier") (hier_name kw) None None (Some n) (Some hds) None None (Some [p_node lds]))
     /\ Forall is_dtext hds /\ concat (map dval hds) = flat_map seg_dec hs
     /\ Forall is_dtext lds /\ concat (map dval lds) = flat_map seg_dec ls.
@@ -454,24 +491,24 @@ Proof.
   set (off := len_N pre) in *.
   (* the heading's and the line's inline runs *)
   set (preh := pre ++ kw ++ 32 :: n ++ [32; 45; 32]).
-  set (posth := NL :: 14 :: NL :: raw ls ++ NL :: 15 :: NL :: rest).
+  set (posth := NL :: repeat NL b ++ 14 :: NL :: raw ls ++ NL :: 15 :: NL :: rest).
   assert (Eih : inp = preh ++ raw hs ++ posth).
   { subst inp preh posth. rewrite <- !app_assoc. cbn [app]. rewrite <- !app_assoc. reflexivity. }
-  set (prel := pre ++ kw ++ 32 :: n ++ 32 :: 45 :: 32 :: raw hs ++ [NL; 14; NL]).
+  set (prel := pre ++ kw ++ 32 :: n ++ 32 :: 45 :: 32 :: raw hs ++ NL :: repeat NL b ++ [14; NL]).
   set (postl := NL :: 15 :: NL :: rest).
   assert (Eil : inp = prel ++ raw ls ++ postl).
-  { subst inp prel postl. rewrite <- !app_assoc. cbn [app]. rewrite <- !app_assoc. cbn [app]. rewrite <- !app_assoc. reflexivity. }
+  { subst inp prel postl. rewrite <- !app_assoc. cbn [app]. rewrite <- !app_assoc. cbn [app]. rewrite <- !app_assoc. cbn [app]. rewrite <- !app_assoc. cbn [app]. reflexivity. }
   destruct (plain_inlines_text (S f) hs preh posth Hhw) as (hds & Ehd & Hhdt & Hhc). rewrite <- Eih in Ehd.
   destruct (plain_inlines_text f ls prel postl Hlw) as (lds & Eld & Hldt & Hlc). rewrite <- Eil in Eld.
   exists hds, lds. split; [|repeat split; assumption].
   assert (Lh : len_N preh = o1 off kw + 1 + len_N n + 2 + 1).
   { subst preh. unfold o1, off. rewrite !len_N_app. change (32 :: n ++ [32; 45; 32]) with ([32] ++ n ++ [32; 45; 32]). rewrite !len_N_app.
     change (len_N [32]) with 1. change (len_N [32; 45; 32]) with 3. lia. }
-  assert (Ll : len_N prel = o4 off kw n hs).
-  { subst prel. unfold o4, o3, o2, o1, off. rewrite !len_N_app. change (32 :: n ++ 32 :: 45 :: 32 :: raw hs ++ [NL; 14; NL]) with ([32] ++ n ++ [32; 45; 32] ++ raw hs ++ [NL; 14; NL]).
-    rewrite !len_N_app. change (len_N [32]) with 1. change (len_N [32; 45; 32]) with 3. change (len_N [NL; 14; NL]) with 3. lia. }
+  assert (Ll : len_N prel = o4 off kw n hs b).
+  { subst prel. unfold o4, o3, o2, o1, off. rewrite !len_N_app. change (32 :: n ++ 32 :: 45 :: 32 :: raw hs ++ NL :: repeat NL b ++ [14; NL]) with ([32] ++ n ++ [32; 45; 32] ++ raw hs ++ [NL] ++ repeat NL b ++ [14; NL]).
+    rewrite !len_N_app, len_N_repeat. change (len_N [32]) with 1. change (len_N [32; 45; 32]) with 3. change (len_N [NL]) with 1. change (len_N [14; NL]) with 2. lia. }
   change (3 + f)%nat with (S (S (S f))). rewrite to_dict_S. set (tdf := to_dict inp (S (S f))). unfold dispatch.
-  set (t0 := hier_tree off kw n hs ls o6 td).
+  set (t0 := hier_tree off kw n hs b ls o6 td).
   repeat match goal with
          | |- context [is_a t0 ?c] =>
              let b := eval vm_compute in (is_a t0 c) in
@@ -485,15 +522,15 @@ Proof.
   replace (text inp (leaf off (len_N kw))) with kw by (symmetry; apply text_at).
   replace (class_attr class_synonyms t0) with (assoc_str (of_string "HierElement") class_synonyms) by (vm_compute; reflexivity).
   fold (hier_name kw).
-  replace (label t0 (Types.S_ "body")) with (OkR (body_node off kw n hs ls o6 td)) by reflexivity.
+  replace (label t0 (Types.S_ "body")) with (OkR (body_node off kw n hs b ls o6 td)) by reflexivity.
   cbn [bind].
-  assert (Hb : has_text (body_node off kw n hs ls o6 td) = true).
+  assert (Hb : has_text (body_node off kw n hs b ls o6 td) = true).
   { unfold has_text, body_node. cbn [t_len]. apply negb_true_iff. apply N.eqb_neq. unfold o5, o4 in Ho. lia. }
   rewrite Hb.
-  replace (label (body_node off kw n hs ls o6 td) (Types.S_ "content")) with (OkR (content_node off kw n hs ls)) by reflexivity.
+  replace (label (body_node off kw n hs b ls o6 td) (Types.S_ "content")) with (OkR (content_node off kw n hs b ls)) by reflexivity.
   cbn [bind]. unfold content_node at 1. cbn [t_kids].
   cbn [many_to_dict concatMapR].
-  replace (has_method (line_tree (o4 off kw n hs) ls) has_to_dict) with true by (vm_compute; reflexivity).
+  replace (has_method (line_tree (o4 off kw n hs b) ls) has_to_dict) with true by (vm_compute; reflexivity).
   subst tdf. unfold line_tree at 1. rewrite td_line. cbn [t_kids]. rewrite <- Ll, Eld. cbn [bind app].
   set (tdf := to_dict inp (S (S f))).
   replace (label t0 (Types.S_ "heading")) with (OkR (heh_node (o1 off kw) n hs)) by reflexivity.
@@ -508,8 +545,8 @@ Proof.
   cbn [bind].
   assert (Etn : text inp (pnum_content_node (o1 off kw + 1) n) = n).
   { unfold pnum_content_node. subst inp.
-    replace (pre ++ kw ++ 32 :: n ++ 32 :: 45 :: 32 :: raw hs ++ NL :: 14 :: NL :: raw ls ++ NL :: 15 :: NL :: rest)
-      with ((pre ++ kw ++ [32]) ++ n ++ 32 :: 45 :: 32 :: raw hs ++ NL :: 14 :: NL :: raw ls ++ NL :: 15 :: NL :: rest)
+    replace (pre ++ kw ++ 32 :: n ++ 32 :: 45 :: 32 :: raw hs ++ NL :: repeat NL b ++ 14 :: NL :: raw ls ++ NL :: 15 :: NL :: rest)
+      with ((pre ++ kw ++ [32]) ++ n ++ 32 :: 45 :: 32 :: raw hs ++ NL :: repeat NL b ++ 14 :: NL :: raw ls ++ NL :: 15 :: NL :: rest)
       by (rewrite <- !app_assoc; reflexivity).
     replace (o1 off kw + 1) with (len_N (pre ++ kw ++ [32])) by (unfold o1, off; rewrite !len_N_app; change (len_N [32]) with 1; lia).
     apply text_at. }
@@ -531,8 +568,8 @@ Proof.
   { intros ->. cbn in Hhc. apply Hhd. symmetry. exact Hhc. }
   replace (truthy_list (Some hds)) with (Some hds) by (destruct hds; [contradiction|reflexivity]).
   destruct n as [|c0 r0]; [contradiction|].
-  replace (label (body_node off kw (c0 :: r0) hs ls o6 td) (Types.S_ "subheading")) with (OkR (leaf (o4 off kw (c0 :: r0) hs) 0)) by reflexivity.
-  cbn [bind]. replace (has_text (leaf (o4 off kw (c0 :: r0) hs) 0)) with false by reflexivity.
+  replace (label (body_node off kw (c0 :: r0) hs b ls o6 td) (Types.S_ "subheading")) with (OkR (leaf (o4 off kw (c0 :: r0) hs b) 0)) by reflexivity.
+  cbn [bind]. replace (has_text (leaf (o4 off kw (c0 :: r0) hs b) 0)) with false by reflexivity.
   cbn [bind]. unfold opt_attrs.
   replace (label t0 (Types.S_ "attrs")) with (OkR (no_attrs_node (o1 off kw))) by reflexivity.
   cbn [bind]. replace (has_text (no_attrs_node (o1 off kw))) with false by reflexivity.
@@ -561,23 +598,23 @@ Proof.
   - split; [apply raw_group|]. split; [apply dec_group|apply next_group].
 Qed.
 
-Definition hier_text (kw n : str) (uh ul : list unit_) (rest : str) : str :=
-  kw ++ 32 :: n ++ 32 :: 45 :: 32 :: encode uh ++ NL :: 14 :: NL :: encode ul ++ NL :: 15 :: NL :: rest.
+Definition hier_text (kw n : str) (uh : list unit_) (b : nat) (ul : list unit_) (rest : str) : str :=
+  kw ++ 32 :: n ++ 32 :: 45 :: 32 :: encode uh ++ NL :: repeat NL b ++ 14 :: NL :: encode ul ++ NL :: 15 :: NL :: rest.
 
 Definition hier_dnode (kw n : str) (hds lds : list dnode) : dnode :=
   DNode (Types.S_ "hier") (hier_name kw) None None (Some n) (Some hds) None None (Some [p_node lds]).
 
-Theorem hier_element_yields_hier_node f f' pre kw n uh ul rest rest' o6 td :
+Theorem hier_element_yields_hier_node f f' pre kw n uh b ul rest rest' o6 td :
   In kw hier_keywords -> num_ok n -> text_units uh -> text_units ul ->
   (match encode uh with c :: _ => c <> 32 | [] => True end) ->
   let L := encode ul ++ NL :: 15 :: NL :: rest in
   none_starts block_lits L = true -> p_safe L = true -> starts_with SUBH L = false -> no_ctl_start (encode ul) = true ->
   let off := len_N pre in
-  let o5' := off + len_N kw + 1 + len_N n + 3 + len_N (encode uh) + 1 + 2 + len_N (encode ul) + 1 in
+  let o5' := off + len_N kw + 1 + len_N n + 3 + len_N (encode uh) + 1 + N.of_nat b + 2 + len_N (encode ul) + 1 in
   run akn_peg (8 + (25 + f)) (Ref (of_string "dedent")) (15 :: NL :: rest) o5' = Ok rest' o6 td -> o5' < o6 ->
   exists tree hds lds,
-    run akn_peg (40 + f) (Ref (of_string "hier_element")) (hier_text kw n uh ul rest) off = Ok rest' o6 tree
-    /\ to_dict (pre ++ hier_text kw n uh ul rest) (3 + f') tree = OkR (hier_dnode kw n hds lds)
+    run akn_peg (40 + f) (Ref (of_string "hier_element")) (hier_text kw n uh b ul rest) off = Ok rest' o6 tree
+    /\ to_dict (pre ++ hier_text kw n uh b ul rest) (3 + f') tree = OkR (hier_dnode kw n hds lds)
     /\ Forall is_dtext hds /\ concat (map dval hds) = decode uh
     /\ Forall is_dtext lds /\ concat (map dval lds) = decode ul
     /\ is_root tree = false.
@@ -590,9 +627,9 @@ Proof.
   rewrite Ech in Hhx, Hh32. rewrite Ecl in Hlx.
   assert (Hl15 : next_of (group ul) <> 15).
   { rewrite Hlx. rewrite Ecl in Hctl. cbn [no_ctl_start] in Hctl. apply andb_prop in Hctl as [_ H]. apply negb_true_iff in H. apply N.eqb_neq. exact H. }
-  exists (hier_tree off kw n (group uh) (group ul) o6 td).
-  assert (Eo5 : o5 off kw n (group uh) (group ul) = o5') by (unfold o5, o4, o3, o2, o1, o5'; rewrite Hhr, Hlr; lia).
-  destruct (td_hier f' pre kw n (group uh) (group ul) rest o6 td Hn Hhw) as (hds & lds & Etd & Hd1 & Hc1 & Hd2 & Hc2);
+  exists (hier_tree off kw n (group uh) b (group ul) o6 td).
+  assert (Eo5 : o5 off kw n (group uh) b (group ul) = o5') by (unfold o5, o4, o3, o2, o1, o5'; rewrite Hhr, Hlr; lia).
+  destruct (td_hier f' pre kw n (group uh) b (group ul) rest o6 td Hn Hhw) as (hds & lds & Etd & Hd1 & Hc1 & Hd2 & Hc2);
     [rewrite Hhd; destruct uh; [contradiction|discriminate]|exact Hlw|fold off; rewrite Eo5; exact Ho|].
   exists hds, lds. unfold hier_text. rewrite <- Hhr, <- Hlr. split; [|split; [exact Etd|]].
   - apply hier_element_parses_gen; try assumption.
